@@ -14,11 +14,16 @@ Proof.
   all: try (symmetry; apply div_small_neg; lia).
 Qed.
 
+(* two spellings of the ceiling of x / k *)
+Remark ceil_div_alt x k : 0 < k -> (x - 1) / k + 1 = (x + (k - 1)) / k.
+Proof. intros Hk. replace (x + (k - 1)) with ((x - 1) + 1 * k) by lia. now rewrite Z.div_add by lia. Qed.
+
 Lemma tie_pos_col_slice s L c a b k : 0 <= L -> 0 < k ->
   gen_pos_col_slice s L c a b k = (fst (pos_col_slice c a b k (s, L)), snd (pos_col_slice c a b k (s, L)), c * k).
 Proof.
   intros HL Hk. unfold gen_pos_col_slice, pos_col_slice. destruct a, b; cbn zeta; cbn [fst snd].
   all: brk; try lia; try reflexivity.
+  all: rewrite ?ceil_div_alt by lia.
   all: repeat f_equal; try lia.
   all: try (apply div_congr; lia).
 Qed.
